@@ -67,9 +67,18 @@ impl Key {
     }
 
     pub fn to_rel_link_url(&self, relative_to: &str) -> String {
-        RelativePath::new(relative_to)
-            .relative(self.relative_path.to_string())
-            .to_string()
+        // go to the note's directory, then name the note: seen from the directory `d`, the
+        // top-level note `d` is `../d` (the relative path from `d` to `d` itself is empty)
+        let own = self.relative_path.to_string();
+        let path = RelativePath::new(&own);
+
+        match (path.parent(), path.file_name()) {
+            (Some(directory), Some(name)) => RelativePath::new(relative_to)
+                .relative(directory)
+                .join(name)
+                .to_string(),
+            _ => RelativePath::new(relative_to).relative(path).to_string(),
+        }
     }
 
     pub fn to_library_url(&self) -> String {
